@@ -13,6 +13,26 @@ CHECKS = {
     category='exploration', design='4/C01',
     text="Every generated operator product (2-10 operators, occ/virt/general indices, NO groups, coefficient tensors, rule sets) and the internal wicks calls of real derivations are compared on every orbital assignment of small model spaces with <Phi0|string|Phi0> computed from a+/a acting on bit-mask determinants. Held-on-observed: says nothing about strings longer than 10 operators or shapes the generator does not produce.",
     note="Trusted: numpy int64 einsum, sympy expand/args, the ~150-line Fock-space code (vlib/fock.py), sympy's F/Fd/NO constructors; F_p arithmetic as image of Q (second prime on disagreement)."),
+ 'C02': dict(
+    technique="runtime monitor: reference-model oracle - library expressions evaluated in a tensor model whose amplitudes are explicit determinant-space RSPT coefficients, compared with the RSPT numbers (energies, amplitudes, residuals + sensitivity probe, expectation values)",
+    category='exploration', design='4/C02',
+    text="mp and re partitioning, first-order singles on/off, energies through order 3 (4 thorough), amplitude classes singles..quadruples, 1- and 2-particle expectation values, fresh and cache-warmed GroundState objects; every request compared on all index assignments of model spaces up to (4,4). Residual checks are guarded by a sensitivity probe (perturbed amplitudes must give a non-zero residual).",
+    note="Trusted: vlib/fock.py RSPT (Gaussian elimination over F_p), TM evaluator, real model Hamiltonians (tNcc = tN). RE order-2 quadruples residual is out of bounds (> 25 min derivation)."),
+ 'C03': dict(
+    technique="runtime monitor: reference-model oracle - explicit intermediate-state power series in determinant space (Gram-Schmidt + S^-1/2 series) vs. the library's secular-matrix blocks, precursor blocks, matrix-vector products and block-order tables",
+    category='exploration', design='4/C03',
+    text="All five ADC variants, first two excitation classes, diagonal and coupling blocks through ADC(2) in the quick tier and ADC(3) in the thorough tier, subtract_gs on/off, MVPs with the documented normalisation, compared on every bra/ket orbital assignment; truncation tables compared with the ADC(n) definition for n <= 6.",
+    note="Trusted: vlib/isr.py, vlib/fock.py, TM; MP partitioning only (as the property states); third-class blocks and orders >= 4 out of bounds."),
+ 'C04': dict(
+    technique="runtime monitor: value oracle with random amplitude tensors over F_p (Schwartz-Zippel) on overlap_isr / overlap_precursor results; antisymmetrised delta computed from orbital tuples",
+    category='exploration', design='4/C04',
+    text="5 variants x class pairs (1,1),(1,2),(2,1),(2,2) x orders 0-2 (3 thorough) x mp/re x singles on/off, real and complex-style amplitude models, every orbital assignment; precursor overlap symmetry.",
+    note="Trusted: TM evaluator; random F_p amplitudes stand for all amplitude values (error probability ~ degree/p per point)."),
+ 'C05': dict(
+    technique="runtime monitor: reference-model oracle - explicit <I|D-<D>|J> and <I|D|Psi0> series between explicitly built intermediate states contracted with random X, Y, d, vs. expec_block_contribution / trans_moment_space / their ADC(n) sums",
+    category='exploration', design='4/C05',
+    text="pp/ip/ea (dip/dea at low order) blocks through ADC(2), 1-particle operators (2-particle thorough), default operator strings per variant, subtract_gs on/off, ADC(n) sums against the block-order definition.",
+    note="Trusted: vlib/isr.py apply_operator, the reading of the documented normalisation (validated on all blocks)."),
 }
 
 NOT_YET = {}
